@@ -317,4 +317,67 @@ PROPS = {
         },
         "min_distinct": {"writers.values.*": 20, "readers.values.*": 24},
     },
+    "C10": {
+        "level": "exploration",
+        "rule": "cases = PacketBuilder configurations: all constructible paths {none, ethernet2, linux_sll} x {no, single, double VLAN via ids or "
+                "headers} x {ipv4, ipv6, ip(IpHeaders with options / AH / IPv6 extension sets), ARP} x {raw, udp, tcp(+flags, options, raw "
+                "options), tcp_header, icmpv4 typed/raw/echo, icmpv6 typed/raw/echo} with random values, plus random configurations and "
+                "payload lengths at the IPv4/IPv6 length limits +-2; judged: size() vs bytes written, three writers identical, independent "
+                "reference decoder and SlicedPacket accept and agree, configured values recovered, derived lengths and all checksums "
+                "(independent RFC 1071 reference), unencodable configurations rejected; distinct = distinct (engine, link, vlan depth, net "
+                "kind, transport kind) signatures",
+        "assumptions": COMMON_ASSUME + [
+            "reference decoder R (strict) and refmodel/checksum.rs, refmodel/tcpopts.rs",
+            "ICMPv4 timestamp messages are only judged with the payload their fixed size admits",
+        ],
+        "runs": {"quick": [dict(CHK)], "thorough": [dict(CHK)]},
+        "mandatory": {
+            "consistent_packets": 500000, "three_writers_identical": 500000, "consistent.Udp.v4": 20000, "consistent.Udp.v6": 20000,
+            "consistent.Tcp.v4": 20000, "consistent.Tcp.v6": 20000, "consistent.Icmp4.v4": 20000, "consistent.Icmp6.v6": 20000,
+            "unencodable_rejected.Icmpv6InIpv4": 10000, "unencodable_rejected.PayloadLen": 500, "limits.at_or_below": 1000,
+            "paths.configs": 100000,
+        },
+    },
+    "C17": {
+        "level": "exploration",
+        "rule": "EXHAUSTIVE over all 65536 (type, code) pairs of ICMPv4 and ICMPv6 x body lengths around every threshold, all (NDP option type, "
+                "length units) pairs x area lengths, all 256 IGMP types x lengths 0..40, all (hlen, plen) ARP pairs; plus random / grammar "
+                "generated ICMP bodies, NDP option lists, IGMPv3 queries/reports with group records, Ethernet/IPv4-shaped ARP packets; oracle = "
+                "independent RFC 792/4443/4861/1112/2236/3376/9776/826 decoder (refmodel/ctrl.rs): kind, fields, fixed/variable split, option "
+                "tiling, rejection rule, unknown fallback; distinct = distinct (family, kind, outcome) signatures",
+        "assumptions": COMMON_ASSUME + [
+            "assigned but untyped ICMP types/codes are expected as Unknown/Raw, typed ones as the crate's documentation tables claim",
+            "LenError layer / len_source are C07's job; only required_len and len are compared here",
+        ],
+        "coverage_extra": {"exhaustive_subdomains": {"icmpv4 (type,code)": 65536, "icmpv6 (type,code)": 65536, "ndp (type,units)": 65280, "arp (hlen,plen)": 65536}},
+        "runs": {"quick": [dict(CHK)], "thorough": [dict(CHK)]},
+        "mandatory": {
+            "exhaustive.icmp4.typed_pairs": 29, "exhaustive.icmp4.unknown_pairs": 65507, "exhaustive.icmp6.typed_pairs": 28,
+            "exhaustive.icmp6.unknown_pairs": 65508, "exhaustive.ndp.type_units_pairs": 65280, "exhaustive.igmp.type_len_pairs_accepted": 8445,
+            "exhaustive.arp.hlen_plen_pairs": 65536, "selfcheck.reference_vectors_ok": 16,
+            "icmp4.unknown_fallback": 3000000, "icmp6.unknown_fallback": 5000000, "ndp.errors_seen": 2000000, "ndp.area_clean": 1200000,
+            "igmp.group_records": 1000000, "arp.eth_ipv4.ok": 600000, "icmp4.rejected.icmp4.timestamp_short": 40000,
+            "ndp.reject.ZeroLength": 180000, "ndp.reject.WrongFixedSize": 180000, "igmp.rejected.igmp.query_9_to_11": 40000,
+        },
+    },
+    "C08": {
+        "level": "exploration",
+        "rule": "byte direction: generated (hostile) headers of 24 decoder entry points / 17 header types; every accepted input b: to_bytes = write "
+                "(write_raw for IPv4), length = header_len = bytes consumed, re-encoding equals b under the reserved-bit mask table "
+                "(MACsec SL reserved bits, IPv4 reserved flag, AH reserved, fragment header reserved, TCP reserved; typed ICMP and extension "
+                "chains compared at value level), decode(encode(v)) = v with empty remainder, read(encode(v)) = v; value direction: directly "
+                "constructed values of 16 types over extremes, all option / ICV / address lengths, every typed ICMPv4/ICMPv6 variant, "
+                "consistent IpHeaders sets; grow-then-shrink setter sequences compared with freshly constructed values; distinct = distinct "
+                "(direction, type, encoded length) signatures",
+        "assumptions": COMMON_ASSUME + [
+            "Ipv4Header::write / IpHeaders::write deliberately recompute the header checksum (documented): compared through write_raw / with inputs that carry a correct checksum",
+            "reference encoders are replaced by the reserved-bit mask comparison against accepted input bytes; IGMP, group records and PrefixInformation round trips are covered by C17/C09",
+        ],
+        "runs": {"quick": [dict(CHK)], "thorough": [dict(CHK)]},
+        "mandatory": {
+            "bytes.round_trips": 1000000, "bytes.reencoded_identical_under_mask": 800000, "bytes.two_serialisers_agree": 1000000,
+            "values.round_trips": 800000, "setters.ok": 1000000, "values.type.Icmpv4Header(timestamp)": 5000,
+        },
+        "min_distinct": {"bytes.type.*": 24, "values.type.*": 16},
+    },
 }
